@@ -143,6 +143,10 @@ async fn main() -> Result<(), Terminator> {
         }
 
         st_mut.set_rules(rules::from_config(&cfg.rules)?).await?;
+        // a relay buffer of zero bytes reads nothing: every tunnel would look closed as soon as it is established
+        if cfg.io_params.buffer_size == 0 {
+            return Err(err_msg("ioParams.bufferSize must be greater than zero").into());
+        }
         st_mut.io_params = cfg.io_params;
     }
 
